@@ -141,35 +141,47 @@ class ExprMixin:
         return o
 
     def assume_closed(self, st, o):
-        """Heap closedness w.r.t. a fresh object o: no allocated object's field
-        / list item / set member / dict entry is o."""
-        al = st.heap.get("$alloc")
+        """Heap closedness w.r.t. a fresh object o: nothing that existed when o was
+        allocated refers to o.  Fields present in the heap map are constrained on
+        their current arrays now; fields created lazily later are constrained on
+        their epoch base arrays by close_heap()."""
+        done = set()
         for f in sorted(st.heap.arr):
-            a = st.heap.arr[f]
-            s = field_sort(f)
-            x = z3.Const(fresh_name("x!cl"), V)
-            if f.startswith("$") and f not in ("$litem", "$smem", "$dget", "$oval", "$okey"):
-                continue
-            if f == "$litem":
-                i = z3.Const(fresh_name("i!cl"), z3.IntSort())
-                st.assume(z3.ForAll([x, i], z3.Select(z3.Select(a, x), i) != o,
-                                    patterns=[z3.Select(z3.Select(a, x), i)]))
-            elif f in ("$oval", "$okey"):
-                i = z3.Const(fresh_name("i!cl"), z3.IntSort())
-                st.assume(z3.ForAll([x, i], z3.Select(z3.Select(a, x), i) != o,
-                                    patterns=[z3.Select(z3.Select(a, x), i)]))
-            elif f == "$smem":
-                st.assume(z3.ForAll([x], z3.Not(z3.Select(z3.Select(a, x), o)),
-                                    patterns=[z3.Select(a, x)]))
-            elif f == "$dget":
-                y = z3.Const(fresh_name("y!cl"), V)
-                st.assume(z3.ForAll([x, y], z3.Select(z3.Select(a, x), y) != o,
-                                    patterns=[z3.Select(z3.Select(a, x), y)]))
-            else:
-                st.assume(z3.ForAll([x], z3.Select(a, x) != o, patterns=[z3.Select(a, x)]))
-        # locals
+            self._close_field(st, o, f, st.heap.arr[f])
+            done.add(f)
         for n, v in st.locals.items():
             st.assume(v != o)
+        st.fresh.append([o, st.heap.epoch, done])
+
+    def close_heap(self, st):
+        for rec in st.fresh:
+            o, ep, done = rec
+            if ep != st.heap.epoch:
+                continue
+            for f in sorted(st.heap.arr):
+                if f in done:
+                    continue
+                base = z3.Const("%s@%d" % (f, ep), field_sort(f))
+                self._close_field(st, o, f, base)
+                done.add(f)
+
+    def _close_field(self, st, o, f, a):
+        x = z3.Const(fresh_name("x!cl"), V)
+        if f.startswith("$") and f not in ("$litem", "$smem", "$dget", "$oval", "$okey"):
+            return
+        if f in ("$litem", "$oval", "$okey"):
+            i = z3.Const(fresh_name("i!cl"), z3.IntSort())
+            st.assume(z3.ForAll([x, i], z3.Select(z3.Select(a, x), i) != o,
+                                patterns=[z3.Select(z3.Select(a, x), i)]))
+        elif f == "$smem":
+            st.assume(z3.ForAll([x], z3.Not(z3.Select(z3.Select(a, x), o)),
+                                patterns=[z3.Select(a, x)]))
+        elif f == "$dget":
+            y = z3.Const(fresh_name("y!cl"), V)
+            st.assume(z3.ForAll([x, y], z3.Select(z3.Select(a, x), y) != o,
+                                patterns=[z3.Select(z3.Select(a, x), y)]))
+        else:
+            st.assume(z3.ForAll([x], z3.Select(a, x) != o, patterns=[z3.Select(a, x)]))
 
     def new_exception(self, st, clsname, args=()):
         e = self.alloc(st, clsname)
